@@ -294,6 +294,14 @@ def replay(ctx, ob):
                 if "REPRODUCED:" in o:
                     return dict(tries=outs), True
         return dict(tries=outs), False
+    if ob.unit.startswith("sfmt.fill") or ob.unit.startswith("sfmt.gen_rand"):
+        outs = []
+        for sd in ("1234", "1", "-7"):
+            rc, o, e, t = run([exe, "stream", sd], 60)
+            outs.append(dict(cmd="c31_replay stream " + sd, output=o))
+            if "REPRODUCED:" in o:
+                return dict(tries=outs), True
+        return dict(tries=outs), False
     if ob.unit.startswith("sfmt."):
         rc, o, e, t = run([exe, "kat"], 60)
         return dict(cmd="c31_replay kat (reference SFMT-19937 first outputs for seed 1234)", output=o), "KAT-MISMATCH" in o
